@@ -384,7 +384,7 @@ class Check:
             with open(replay_path, "w") as f:
                 json.dump({"property": self.pid, "seed": self.seed, "tier": self.tier,
                            "violations": [{"signature": s, "what": w, "replay": r}
-                                          for s, w, r in self.violations[:20]]}, f, indent=1, default=repr)
+                                          for s, w, r in self.violations[:200]]}, f, indent=1, default=repr)
             nf = all(r.get("no_failing_input_found") for _, _, r in self.violations)
             for s, w, _ in self.violations[:10]:
                 print(f"  violation[{s}]: {w}")
